@@ -148,7 +148,8 @@ theorem initSeg_sbBandCount (W H C R MC MR : Nat) :
 
 theorem initSeg_segRowCount (W H C R MC MR : Nat) :
     (initSeg W H C R MC MR).segRowCount
-      = (if (if R < H then R else H) < MR then (if R < H then R else H) else MR) := rfl
+      = (if W = 1 then 1
+         else if (if R < H then R else H) < MR then (if R < H then R else H) else MR) := rfl
 
 theorem initSeg_segBandCount (W H C R MC MR : Nat) :
     (initSeg W H C R MC MR).segBandCount
@@ -298,14 +299,14 @@ theorem aget_foldl_twoInc {α : Type} (m : Nat) (c1 c2 : α → Prop) [Decidable
     congr 1
     omega
 
-/-- the `(row, segment_index)` pairs visited by the dependency loop (lines 141-146), in order -/
+/-- the `(row, segment_index)` pairs visited by the dependency loop (lines 146-151), in order -/
 def depPairs (rows : Array SegRow) (r2 : Nat) : List (Nat × Nat) :=
   (List.range r2).flatMap fun r => (rowSegs rows r).map fun s => (r, s)
 
-/-- right-neighbour increment condition (lines 147-150) -/
+/-- right-neighbour increment condition (lines 152-155) -/
 def depC1 (valid : Array Nat) (rows : Array SegRow) (e : Nat × Nat) : Prop :=
   aget valid e.2 ≠ 0 ∧ e.2 < rowEnd rows e.1
-/-- bottom-left increment condition (lines 147, 153-156) -/
+/-- bottom-left increment condition (lines 152, 158-161) -/
 def depC2 (valid : Array Nat) (rows : Array SegRow) (segRow B : Nat) (e : Nat × Nat) : Prop :=
   aget valid e.2 ≠ 0 ∧ e.1 < sub32 segRow 1 ∧ u32 (e.2 + B) ≥ rowStart rows (e.1 + 1)
 
@@ -750,10 +751,12 @@ theorem initSeg_scalars (hW1 : 1 ≤ W) (hW : W ≤ 4096) (hH1 : 1 ≤ H) (hH : 
     g.sbRowCount = H ∧ g.sbBandCount = H + W - 1 ∧ 0 < g.segRowCount ∧ g.segRowCount ≤ H ∧
       0 < g.segBandCount ∧ g.segBandCount ≤ 8192 := by
   intro g
-  have h1 : g.segRowCount = min (min R H) MR := initSeg_segRowCount_min W H C R MC MR
-  have h2 : g.segBandCount = segB (min (min R H) MR) (min C W) :=
+  have h1 : g.segRowCount = effR W H R MR := initSeg_segRowCount_min W H C R MC MR
+  have h2 : g.segBandCount = segB (effR W H R MR) (min C W) :=
     initSeg_segBandCount_closed hW1 hW hH hC MC
   have h3 : g.sbBandCount = sbT W H := initSeg_sbBandCount_closed hW1 hW hH MC
+  have hE1 := effR_pos (W := W) hH1 hR hMR
+  have hE2 := effR_le_H (W := W) (R := R) (MR := MR) hH1
   refine ⟨rfl, ?_, ?_, ?_, ?_, ?_⟩
   · rw [h3]; unfold sbT; rfl
   · omega
